@@ -187,8 +187,16 @@ theorem createClient_core {cfg : Cfg} {c : Chain} (n : Bytes) (hc : Core c) : Co
   repeat' split
   all_goals first | exact hc | exact ⟨hc.gap, hc.agree⟩
 
+/-- the upgrade handler leaves both counters of every destination unset (next = 1 on both sides) and restarts the
+ghost list: the invariant holds afterwards whatever the state was before -/
+theorem upgrade_core (c : Chain) : Core (upgrade c).1 := by
+  constructor
+  · intro d; simp [upgrade, sentTo]
+  · intro d; simp [upgrade]
+
 theorem step_core {cfg : Cfg} {env : Env} {c : Chain} (o : Op) (hc : Core c) : Core (step cfg env c o).1 := by
   cases o with
+  | upgrade => exact upgrade_core c
   | tx v ls => exact applyTx_core v ls hc
   | recv r => exact recv_core r hc
   | ack a => exact ack_core a hc
@@ -414,9 +422,15 @@ def OpOk (cfg : Cfg) (self : Bytes) : Op → Prop
 theorem opOk_hardened (cfg : Cfg) (h : cfg.rejectOwnName = true) (self : Bytes) (o : Op) : OpOk cfg self o := by
   cases o <;> simp [OpOk, h]
 
+theorem upgrade_full (env : Env) (c : Chain) : Full env (upgrade c).1 ∧ (upgrade c).1.self = c.self := by
+  refine ⟨⟨upgrade_core c, rfl, ?_, ?_⟩, rfl⟩
+  · intro d i h hc; simp [upgrade] at hc
+  · intro p hp; simp [upgrade] at hp
+
 theorem step_full {cfg : Cfg} {env : Env} {c : Chain} (o : Op) (ho : OpOk cfg c.self o) (hf : Full env c) :
     Full env (step cfg env c o).1 ∧ (step cfg env c o).1.self = c.self := by
   cases o with
+  | upgrade => exact upgrade_full env c
   | tx v ls => exact applyTx_full v ls hf
   | recv r => exact recv_full r hf
   | ack a => exact ack_full a hf
@@ -744,6 +758,51 @@ theorem rejected_recv_noop (cfg : Cfg) (env : Env) (c : Chain) (r : RecvIn) (h :
     all_goals simp
   · rw [he] at h; exfalso; revert h; first | (split <;> simp) | simp
 
+/-! ### software upgrade (`app/upgrades.go`, handler `v0.2`) -/
+
+/-- What the handler leaves: both counters of every destination at "next = 1", no commitment, no receipt, no client;
+the endpoint's escrow is not touched. -/
+theorem upgrade_resets (c : Chain) (d : Bytes) (k : Key) (t : Triple) :
+    chainNext (upgrade c).1 d = 1 ∧ contractNext (upgrade c).1 d = 1 ∧ (upgrade c).1.commits k = none ∧
+    (upgrade c).1.receipts t = false ∧ (upgrade c).1.clients d = false ∧ (upgrade c).1.escrow = c.escrow ∧
+    (upgrade c).1.sent = [] := by
+  simp [upgrade, chainNext, contractNext]
+
+/-- **The two counters are one counter in every reachable state, upgrades included**: `counters_agree` and
+`seq_gap_free_from` quantify over op lists that contain `Op.upgrade` at arbitrary positions (it is a constructor of
+`Op`); this corollary says more — the handler *re-establishes* the invariant from ANY state (no hypothesis on `c`), so
+after an upgrade followed by any history the chain counter equals the contract counter and the sends since the upgrade
+are numbered 1, 2, … per destination. -/
+theorem counters_agree_after_upgrade (cfg : Cfg) (env : Env) (c : Chain) (post : List Op) (d : Bytes) :
+    let c' := run cfg env c (.upgrade :: post)
+    contractNext c' d = chainNext c' d ∧
+    chainNext c' d = (sentTo c'.sent d).length + 1 ∧
+    ∀ i (hi : i < (sentTo c'.sent d).length), ((sentTo c'.sent d)[i]).seq = i + 1 := by
+  intro c'
+  have hc : Core (upgrade c).1 := upgrade_core c
+  refine ⟨counters_agree cfg env _ post hc d, ?_⟩
+  exact seq_gap_free_from cfg env _ post hc d
+
+/-- commitments after an upgrade are exactly those of the sends since the upgrade (again from ANY state before it) -/
+theorem commitments_exact_after_upgrade (cfg : Cfg) (env : Env) (c : Chain) (post : List Op)
+    (ho : ∀ o ∈ post, OpOk cfg c.self o) :
+    let c' := run cfg env c (.upgrade :: post)
+    (∀ d i h, c'.commits (d, i) = some h → ∃ p ∈ c'.sent, p.dst = d ∧ p.seq = i ∧ h = env.sha256 p.bytes ∧ i < chainNext c' d) ∧
+    (∀ p ∈ c'.sent, c'.commits (p.dst, p.seq) = some (env.sha256 p.bytes) ∨ (p.dst, p.seq) ∈ c'.acked) := by
+  obtain ⟨hf, hs⟩ := upgrade_full env c
+  exact commitments_exact cfg env (upgrade c).1 post hf (fun o h => by rw [hs]; exact ho o h)
+
+/-- **A successful send carries the value of BOTH counters** (and, by `one_commitment_send`, leaves exactly one
+commitment and moves both to `seq + 1`) — in every state satisfying the invariant, hence in every reachable state,
+before or after any number of upgrades. -/
+theorem send_seq_is_both_counters {env : Env} {c c' : Chain} {p : Packet} (hc : Core c)
+    (h : sendPacket env c p = .ok c') :
+    p.seq = chainNext c p.dst ∧ p.seq = contractNext c p.dst ∧
+    chainNext c' p.dst = p.seq + 1 ∧ contractNext c' p.dst = p.seq + 1 ∧
+    c'.commits (p.dst, p.seq) = some (env.sha256 p.bytes) := by
+  obtain ⟨_, h2, h3, _, h5, h6, _⟩ := one_commitment_send h
+  exact ⟨h2, by rw [h2]; exact (hc.agree p.dst).symm, h5, h6, h3⟩
+
 /-! ### witnesses and non-vacuity -/
 
 section Examples
@@ -798,6 +857,26 @@ example :
 
 /-- with the hardening patch the own name is rejected and `commitments_exact` needs no hypothesis on the history -/
 example : (createClient { cbOnCctx := true, rejectOwnName := true } c0 nA).2 = .err := by decide
+
+/-- upgrade in the middle of a history: one send to `nB`, upgrade (counters, commitments, clients gone; escrow stays),
+client re-created, next send carries sequence 1 again and both counters move to 2 -/
+example :
+    let c1 := (applyTx envId c0 true [.sent (pk nB 1)]).1
+    let c2 := (upgrade c1).1
+    let c3 := (createClient { cbOnCctx := true } c2 nB).1
+    chainNext c1 nB = 2 ∧ contractNext c1 nB = 2 ∧ chainNext c2 nB = 1 ∧ contractNext c2 nB = 1 ∧
+    c2.commits (nB, 1) = none ∧ c2.escrow (0, nB) = 10 ∧
+    (applyTx envId c2 true [.sent (pk nB 1)]).2 = .hookFailed ∧          -- no client yet
+    (applyTx envId c3 true [.sent (pk nB 2)]).2 = .hookFailed ∧          -- the old sequence is not accepted
+    (applyTx envId c3 true [.sent (pk nB 1)]).2 = .ok ∧
+    contractNext (applyTx envId c3 true [.sent (pk nB 1)]).1 nB = 2 := by decide
+
+/-- what the check is designed to catch: a handler that re-installs the packet contract's code WITHOUT deleting the
+account keeps the contract's `sequences` storage — the counters then disagree (contract 2, chain 1) -/
+example :
+    let c1 := (applyTx envId c0 true [.sent (pk nB 1)]).1
+    let bad : Chain := { (upgrade c1).1 with cseq := c1.cseq }
+    contractNext bad nB = 2 ∧ chainNext bad nB = 1 := by decide
 
 end Examples
 
